@@ -812,7 +812,8 @@ class PyRec(Val):
         return PyRec(self.cls, f, self.ty)
 
     def same(self, other):
-        return z3.And([v.same(other.fields[k]) for k, v in self.fields.items()] or [z3.BoolVal(True)])
+        # (a field the verified body creates itself -- not declared in the record type, absent before -- is outside the frame)
+        return z3.And([v.same(other.fields[k]) for k, v in self.fields.items() if k in other.fields] or [z3.BoolVal(True)])
 
     def ident(self, other):
         return (isinstance(other, PyRec) and self.fields.keys() == other.fields.keys()
